@@ -459,16 +459,31 @@ func (c *Ctx) removalClosesRule(rule string) {
 		c.und(rule, "sink table", "-", "not resolved")
 		return
 	}
+	var knownAtRemoval []condFact
 	isCloseCb := func(in ssa.Instruction) bool {
 		call, ok := in.(*ssa.Call)
 		if !ok || call.Common().IsInvoke() || len(call.Common().Args) != 2 || !c.fieldVal(call.Common().Value, r.FChanhCb) {
 			return false
 		}
 		k, isK := call.Common().Args[1].(*ssa.Const)
-		return isK && k.Value != nil && k.Value.String() == "false"
+		if isK && k.Value != nil && k.Value.String() == "false" {
+			return true
+		}
+		// ok computed from a flag that is decided where the entry is removed: cb(msg, !closing) under `if closing`
+		arg := call.Common().Args[1]
+		for _, cf := range knownAtRemoval {
+			if u, isNot := arg.(*ssa.UnOp); isNot && u.Op == token.NOT && u.X == cf.Cond && cf.True {
+				return true
+			}
+			if arg == cf.Cond && !cf.True {
+				return true
+			}
+		}
+		return false
 	}
 	n := 0
 	for _, u := range usesOfKind(p.uses(r.FChanh), "delete") {
+		knownAtRemoval = expandConds(impliedConds(u.At.Block()))
 		n++
 		construct := fmt.Sprintf("%s: removal of a sink from the table", fname(u.Fn))
 		before := mustPrecedeIP(u.At, isCloseCb, 0)
